@@ -452,7 +452,39 @@ def run_pairings(ctx, chk, fine=False, rule="C08.1"):
     return out
 
 
+def manual_counter_rule(ctx, chk, rule="C08.6", modules=("roberta_generator.py", "stochastic_game_from_roborta_board.py")):
+    """A hand-kept element number (`tile = 0; for ..: ...; tile += 1`) that is USED on a path which leaves the iteration through
+    `continue` before the increment: the element after it gets the same number (every later tile is shifted by one)."""
+    n = hits = 0
+    for f in ctx.prog.all_funcs(modules):
+        for lp in walk_no_nested_defs(f.node):
+            if not isinstance(lp, (ast.For, ast.While)):
+                continue
+            incs = [(i, st) for i, st in enumerate(lp.body) if isinstance(st, ast.AugAssign) and isinstance(st.op, ast.Add) and isinstance(st.target, ast.Name)
+                    and isinstance(st.value, ast.Constant) and st.value.value == 1]
+            for idx, inc in incs:
+                c = inc.target.id
+                n += 1
+                for st in lp.body[:idx]:
+                    for br in ast.walk(st):
+                        if not isinstance(br, ast.If):
+                            continue
+                        for block in (br.body, br.orelse):
+                            if block and isinstance(block[-1], ast.Continue):
+                                used = any(isinstance(x, ast.Name) and x.id == c and isinstance(x.ctx, ast.Load) for b_ in block for x in ast.walk(b_))
+                                bumped = any(isinstance(x, ast.AugAssign) and isinstance(x.target, ast.Name) and x.target.id == c for b_ in block for x in ast.walk(b_))
+                                if used and not bumped:
+                                    hits += 1
+                                    chk.violation(rule, f.where(br), "the element number `%s` is used under `if %s` and the iteration is then left with `continue`, before `%s += 1`: "
+                                                  "the next element gets the same number and every later one is off by one" % (c, src(br.test)[:40], c),
+                                                  expected="%s += 1 on every path through the loop body" % c, found=norm_stmt(br)[:100],
+                                                  construct="%s counter %s skipped by continue" % (f.short, c))
+    if not hits:
+        chk.ok(rule, ", ".join(modules), "hand-kept element counters: %d found, none used on a path that skips its increment" % n)
+
+
 def run(ctx, chk):
+    manual_counter_rule(ctx, chk)
     ps = run_pairings(ctx, chk)
     for gname, p in ps.items():
         structure_rules(ctx, chk, p.G, gname, p)
